@@ -7,13 +7,16 @@ package replayfilter
 // operational reference model, and structural invariants after every step.
 
 import (
+	"container/list"
 	"encoding/json"
 	"fmt"
 	"os"
+	"reflect"
 	"strings"
 	"sync"
 	"testing"
 	"time"
+	"unsafe"
 
 	"pgregory.net/rapid"
 
@@ -38,6 +41,16 @@ type vfModel struct {
 	expired int // entries dropped because of TTL
 	evicted int // entries dropped because the filter was full
 	resets  int // full backward jumps
+
+	// sliding-window maximum of the timestamps present (entries leave at the
+	// front only), so that partialBackward is O(1) during bulk fills
+	pushed, popped int
+	mx             []vfMax
+}
+
+type vfMax struct {
+	seq int
+	t   int64
 }
 
 func vfNewModel(ttl int64, capacity int) *vfModel {
@@ -54,6 +67,7 @@ func (m *vfModel) compact(now int64) {
 			dt := now - front.t
 			if dt < 0 {
 				m.q, m.head, m.idx = nil, 0, map[string]struct{}{}
+				m.mx, m.popped = nil, m.pushed
 				m.resets++
 				return
 			}
@@ -68,6 +82,10 @@ func (m *vfModel) compact(now int64) {
 		}
 		delete(m.idx, front.val)
 		m.head++
+		if len(m.mx) > 0 && m.mx[0].seq == m.popped {
+			m.mx = m.mx[1:]
+		}
+		m.popped++
 		if m.head > 1024 && m.head*2 > len(m.q) {
 			m.q = append([]vfEntry(nil), m.q[m.head:]...)
 			m.head = 0
@@ -82,6 +100,11 @@ func (m *vfModel) testAndSet(now int64, v string) bool {
 	}
 	m.idx[v] = struct{}{}
 	m.q = append(m.q, vfEntry{v, now})
+	for len(m.mx) > 0 && m.mx[len(m.mx)-1].t <= now {
+		m.mx = m.mx[:len(m.mx)-1]
+	}
+	m.mx = append(m.mx, vfMax{m.pushed, now})
+	m.pushed++
 	return false
 }
 
@@ -94,45 +117,128 @@ func (m *vfModel) partialBackward(now int64) bool {
 	if now < m.q[m.head].t {
 		return false // full backward jump: everything is discarded
 	}
-	for i := m.head; i < len(m.q); i++ {
-		if now < m.q[i].t {
-			return true
-		}
-	}
-	return false
+	return now < m.mx[0].t // the newest-in-time entry present is later than now
 }
 
 // ---- invariants ---------------------------------------------------------------
 
-func vfInvariants(f *ReplayFilter, deep bool) error {
-	if len(f.filter) != f.fifo.Len() {
-		return fmt.Errorf("map has %d entries, list has %d", len(f.filter), f.fifo.Len())
+// vfCapacity is the capacity the property states (not the code's constant, so
+// that a changed constant is noticed).
+const vfCapacity = 102400
+
+// The structural checks look at the filter through reflection, so that they
+// keep working (or switch themselves off, counted) when the unexported layout
+// is refactored: what the property pins is the behaviour and the bound on the
+// number of remembered values, not container/list.
+
+func vfField(f *ReplayFilter, pred func(reflect.Value) bool) (reflect.Value, bool) {
+	rv := reflect.ValueOf(f).Elem()
+	for i := 0; i < rv.NumField(); i++ {
+		fv := rv.Field(i)
+		if !fv.CanAddr() {
+			continue
+		}
+		fv = reflect.NewAt(fv.Type(), unsafe.Pointer(fv.UnsafeAddr())).Elem()
+		if pred(fv) {
+			return fv, true
+		}
 	}
-	if f.fifo.Len() > maxFilterSize {
-		return fmt.Errorf("filter holds %d > capacity %d", f.fifo.Len(), maxFilterSize)
+	return reflect.Value{}, false
+}
+
+// vfSize is the number of values the filter remembers (size of its map; of its
+// container/list if there is no map); ok=false when neither exists.
+func vfSize(f *ReplayFilter) (int, bool) {
+	if mv, ok := vfField(f, func(v reflect.Value) bool { return v.Kind() == reflect.Map }); ok {
+		return mv.Len(), true
+	}
+	if lv, ok := vfField(f, func(v reflect.Value) bool { _, is := v.Interface().(*list.List); return is }); ok {
+		if l := lv.Interface().(*list.List); l != nil {
+			return l.Len(), true
+		}
+	}
+	return 0, false
+}
+
+var vfShapeOnce sync.Once
+
+func vfInvariants(f *ReplayFilter, deep bool) error {
+	n, ok := vfSize(f)
+	if !ok {
+		vfShapeOnce.Do(func() { ev.For("C11").Class("layout-not-inspectable", 1) })
+		return nil
+	}
+	if n > vfCapacity {
+		return fmt.Errorf("filter holds %d > capacity %d", n, vfCapacity)
+	}
+	mv, okm := vfField(f, func(v reflect.Value) bool { return v.Kind() == reflect.Map })
+	lv, okl := vfField(f, func(v reflect.Value) bool { _, is := v.Interface().(*list.List); return is })
+	if !okm || !okl || lv.Interface().(*list.List) == nil {
+		return nil
+	}
+	l := lv.Interface().(*list.List)
+	if mv.Len() != l.Len() {
+		return fmt.Errorf("map has %d entries, list has %d", mv.Len(), l.Len())
 	}
 	if !deep {
 		return nil
 	}
+	// bijection, when the list holds (pointers to) structs with a `digest` field
+	// that keys the map
 	seen := 0
-	for e := f.fifo.Front(); e != nil; e = e.Next() {
-		ent, ok := e.Value.(*entry)
-		if !ok || ent == nil {
-			return fmt.Errorf("list element without entry")
+	for e := l.Front(); e != nil; e = e.Next() {
+		ent := reflect.ValueOf(e.Value)
+		st := ent
+		if st.Kind() == reflect.Ptr {
+			if st.IsNil() {
+				return fmt.Errorf("list element without entry")
+			}
+			st = st.Elem()
 		}
-		if f.filter[ent.digest] != ent {
-			return fmt.Errorf("list entry %x not in map", ent.digest)
+		if st.Kind() != reflect.Struct {
+			return nil
 		}
-		if ent.element != e {
-			return fmt.Errorf("entry %x does not point at its list element", ent.digest)
+		dg := st.FieldByName("digest")
+		if !dg.IsValid() || dg.Type() != mv.Type().Key() {
+			return nil
+		}
+		got := mv.MapIndex(dg)
+		if !got.IsValid() {
+			return fmt.Errorf("list entry %x not in map", dg.Uint())
+		}
+		if got.Kind() == reflect.Ptr && ent.Kind() == reflect.Ptr && got.Type() == ent.Type() && got.Pointer() != ent.Pointer() {
+			return fmt.Errorf("list entry %x is not the entry the map holds", dg.Uint())
+		}
+		if el := st.FieldByName("element"); el.IsValid() && el.Kind() == reflect.Ptr && el.Type() == reflect.TypeOf(e) && el.Pointer() != reflect.ValueOf(e).Pointer() {
+			return fmt.Errorf("entry %x does not point at its list element", dg.Uint())
 		}
 		seen++
 	}
-	if seen != len(f.filter) {
-		return fmt.Errorf("bijection broken: %d list entries, %d map entries", seen, len(f.filter))
+	if seen != mv.Len() {
+		return fmt.Errorf("bijection broken: %d list entries, %d map entries", seen, mv.Len())
 	}
 	return nil
 }
+
+// vfSizeAgainstModel: the filter must remember every value the model still
+// holds (fewer = it forgot a live value) and never more than the capacity.
+// Holding MORE than the model (expired values purged lazily) is not forbidden
+// by the statement as long as the answers agree; it is counted.
+func vfSizeAgainstModel(f *ReplayFilter, m *vfModel) string {
+	n, ok := vfSize(f)
+	if !ok {
+		return ""
+	}
+	if n < m.size() {
+		return fmt.Sprintf("filter remembers %d values, %d are still live", n, m.size())
+	}
+	if n > m.size() {
+		vfLazy.Do(func() { ev.For("C11").Class("holds-more-than-live", 1) })
+	}
+	return ""
+}
+
+var vfLazy sync.Once
 
 // ---- one history ----------------------------------------------------------------
 
@@ -152,7 +258,7 @@ func vfRunHistory(ttl int64, ops []vfOp, st *vfHistStats) string {
 	if err != nil {
 		return "VIOL[c11-new]: " + err.Error()
 	}
-	m := vfNewModel(ttl, maxFilterSize)
+	m := vfNewModel(ttl, vfCapacity)
 	type ins struct {
 		v string
 		t int64
@@ -211,8 +317,10 @@ func vfRunHistory(ttl int64, ops []vfOp, st *vfHistStats) string {
 		if err := vfInvariants(f, true); err != nil {
 			return fmt.Sprintf("VIOL[c11-invariant]: after op %d: %v", i, err)
 		}
-		if !unconstrained && f.fifo.Len() != m.size() {
-			return fmt.Sprintf("VIOL[c11-size]: after op %d filter holds %d entries, model %d", i, f.fifo.Len(), m.size())
+		if !unconstrained {
+			if msg := vfSizeAgainstModel(f, m); msg != "" {
+				return fmt.Sprintf("VIOL[c11-size]: after op %d %s", i, msg)
+			}
 		}
 	}
 	return ""
@@ -311,9 +419,10 @@ func TestVerifC11Machine(t *testing.T) {
 	c.Rule("machine: rapid state machine of up to 200 TestAndSet operations over a pool of 12 values with forward steps, TTL-boundary steps, big jumps, backward jumps and bulk fills to capacity-delta and beyond (102400 + k real inserts); non-trivial = history with (expiry and re-insert) or overflow or backward jump; fingerprint = op list")
 	c.Floor("machine-expiry+reinsert/machine", 0.15)
 	c.Floor("machine-backward/machine", 0.10)
-	fillBudget := 3
+	c.Floor("machine-overflow/machine", 0.01)
+	fillBudget := 12
 	if ev.Thorough() {
-		fillBudget = 12
+		fillBudget = 60
 	}
 	var fills int
 	rapid.Check(t, func(rt *rapid.T) {
@@ -322,7 +431,7 @@ func TestVerifC11Machine(t *testing.T) {
 		if err != nil {
 			rt.Fatalf("VIOL[c11-new]: %v", err)
 		}
-		m := vfNewModel(ttl, maxFilterSize)
+		m := vfNewModel(ttl, vfCapacity)
 		now := int64(0)
 		unconstrained := false
 		var st vfHistStats
@@ -330,7 +439,7 @@ func TestVerifC11Machine(t *testing.T) {
 		var hist []string
 		fresh := 0
 		everInserted := map[string]bool{}
-		doFill := rapid.IntRange(0, 99).Draw(rt, "fillRoll") < 4 && fills < fillBudget
+		doFill := rapid.IntRange(0, 99).Draw(rt, "fillRoll") < 10 && fills < fillBudget
 		step := func(v string, dt int64) {
 			now += dt
 			if dt < 0 && m.size() > 0 {
@@ -366,8 +475,10 @@ func TestVerifC11Machine(t *testing.T) {
 			if err := vfInvariants(f, deep); err != nil {
 				rt.Fatalf("VIOL[c11-invariant]: %v; history %v", err, hist)
 			}
-			if !unconstrained && f.fifo.Len() != m.size() {
-				rt.Fatalf("VIOL[c11-size]: filter holds %d entries, model %d; history %v", f.fifo.Len(), m.size(), hist)
+			if !unconstrained {
+				if msg := vfSizeAgainstModel(f, m); msg != "" {
+					rt.Fatalf("VIOL[c11-size]: %s; history %v", msg, hist)
+				}
 			}
 		}
 		nops := rapid.IntRange(1, 200).Draw(rt, "nops")
@@ -412,7 +523,7 @@ func TestVerifC11Machine(t *testing.T) {
 				// bring the filter to capacity-delta, then go over it
 				delta := rapid.IntRange(0, 3).Draw(rt, "delta")
 				over := rapid.IntRange(1, 5).Draw(rt, "over")
-				target := maxFilterSize - delta
+				target := vfCapacity - delta
 				hist = append(hist, fmt.Sprintf("fill(to=%d,then+%d)", target, over+delta))
 				for m.size() < target {
 					fresh++
@@ -427,6 +538,27 @@ func TestVerifC11Machine(t *testing.T) {
 				// the oldest values must have been forgotten, the newest kept
 				step(fmt.Sprintf("fresh%d", fresh), 0)
 				check(false)
+				// with the filter full: a value from the middle of the fill after
+				// the TTL has passed / after a backward jump must be new again
+				switch rapid.IntRange(0, 3).Draw(rt, "afterFill") {
+				case 1:
+					k := fresh - rapid.IntRange(1, vfCapacity/2).Draw(rt, "mid")
+					dt := ttl + rapid.Int64Range(0, 2).Draw(rt, "dtx")
+					hist = append(hist, fmt.Sprintf("tas(fresh%d,+%d)", k, dt))
+					step(fmt.Sprintf("fresh%d", k), dt)
+					check(false)
+				case 2:
+					k := fresh - rapid.IntRange(1, vfCapacity/2).Draw(rt, "mid")
+					dt := -rapid.Int64Range(1, ttl+3).Draw(rt, "backx")
+					hist = append(hist, fmt.Sprintf("tas(fresh%d,%d)", k, dt))
+					step(fmt.Sprintf("fresh%d", k), dt)
+					check(false)
+				case 3:
+					k := fresh - rapid.IntRange(1, vfCapacity/2).Draw(rt, "mid")
+					hist = append(hist, fmt.Sprintf("tas(fresh%d,+0)", k))
+					step(fmt.Sprintf("fresh%d", k), 0)
+					check(false)
+				}
 				doFill = false
 				fills++
 			}
